@@ -102,7 +102,7 @@ J conc_to_json(const ConcCase& c) {
   J s = J::arr();
   for (int v : c.sched.schedule) s.push(v);
   j.set("schedule", s);
-  j.set("schedule_semantics", "task id chosen at each scheduler step; if that task is not runnable, id modulo the runnable set; after the list ends the current task keeps running");
+  j.set("schedule_semantics", "task id chosen at each scheduler step; an entry whose task cannot run at that point is skipped; after the list ends the current task keeps running");
   return j;
 }
 
